@@ -554,6 +554,19 @@ def translate(repo):
     # glue in other files
     pinned(repo, 'lcapy/immittancemixin.py', 'network', 'ImmittanceMixin', 'from .synthesis import network\nreturn network(self.Z, form)')
     pinned(repo, 'lcapy/network.py', 'transform', 'Network', 'return self.Z(s).network(form)')
+    # default values of the `form` parameter of the three entry points
+    def form_default(rel, name, cls, args):
+        t = ast.parse(open(os.path.join(repo, rel)).read())
+        f = find_def(t, name, cls, rel)
+        if [a.arg for a in f.args.args] != args or len(f.args.defaults) != 1 or f.args.vararg or f.args.kwarg or f.args.kwonlyargs:
+            raise Untranslatable('%s:%d: unexpected signature of %s' % (rel, f.lineno, name))
+        dv = f.args.defaults[0]
+        if not (isinstance(dv, ast.Constant) and isinstance(dv.value, str) and dv.value.isidentifier()):
+            raise Untranslatable('%s:%d: default form of %s is not a plain name' % (rel, f.lineno, name))
+        return dv.value
+    tr.transform_default = form_default('lcapy/network.py', 'transform', 'Network', ['self', 'form'])
+    tr.mixin_default = form_default('lcapy/immittancemixin.py', 'network', 'ImmittanceMixin', ['self', 'form'])
+    tr.function_default = form_default('lcapy/synthesis.py', 'network', None, ['lexpr', 'form'])
     pinned(repo, 'lcapy/oneport.py', 'series', None, SERIES_BODY % 'Ser')
     pinned(repo, 'lcapy/oneport.py', 'parallel', None, SERIES_BODY % 'Par')
     pinned(repo, 'lcapy/expr.py', 'continued_fraction_coeffs', 'Expr', CF_BODY)
@@ -590,6 +603,10 @@ def gen_coq(tr):
             out.append('Definition fos_%s : foster := MkFoster %s %s pat_%s %s.' % (nm, b(f['src_inv']), f['op'], f['pat'], b(f['inv'])))
     out.append('')
     out.append('Definition synth_default : string := "%s"%%string.' % tr.default)
+    out.append('(* default value of `form` in Network.transform / ImmittanceMixin.network / synthesis.network *)')
+    out.append('Definition transform_default : string := "%s"%%string.' % tr.transform_default)
+    out.append('Definition mixin_default : string := "%s"%%string.' % tr.mixin_default)
+    out.append('Definition function_default : string := "%s"%%string.' % tr.function_default)
     ents = []
     for nm in tr.order:
         if nm in tr.patterns:
